@@ -136,13 +136,13 @@ PROPS['C16'] = dict(
 PROPS['C08'] = dict(
     bounded_quick=[('cursor', 'Node::split / spill / write / free_page, InnerBucket::merge_nodes / rebalance / spill (Rc<RefCell<Node>> graph, float thresholds), Page::write_node / Node::from_page beyond the bounded Kani codec')],
     level='proof',
-    units=['range', 'cursor', 'pagenode'],
+    units=['range', 'cursor', 'pagenode', 'filters'],
     explanation='Ranges: Range::next is verified on its real body for a generic R: RangeBounds<&[u8]> (all nine combinations of included / excluded / unbounded) against the '
                 'documented Cursor semantics: everything yielded lies within both bounds and is the entry at the cursor; on the first call no entry that satisfies both bounds is '
                 'skipped; later calls advance by exactly one entry and yield None only at the end or beyond the upper bound; the cursor stays well-formed. '
                 'Cursor::{seek, current, seek_first, advance, on_emptied_leaf, next} and `search` are verified on their real bodies over an abstract tree interface: no panic (no underflow on empty nodes, no unwrap of an empty stack, '
                 'no leaf access on a branch), every stack entry indexes into its node, next() after the end is harmless (position unchanged, None again), '
-                'current() is total (callable after any sequence of seek/next). R2-full: with num(stack) := number of entries strictly before the position in the in-order numbering of the tree '
+                'current() is total (callable after any sequence of seek/next). Filters (unit filters): the bodies of Iterator::next for KVPairs<I> and Buckets<I>, at I = a stand-in iterator whose remaining output is a ghost sequence, yield the FIRST pair / nested bucket still to come, consume exactly the elements up to it and end only when none is left (rule R14 turns `for x in it.by_ref()` into the loop over it.next()); the "Could not find bucket" panic is proved unreachable on a sound tree. R2-full: with num(stack) := number of entries strictly before the position in the in-order numbering of the tree '
                 '(DEFINED recursively over the abstract tree: size/prefix/num in prelude/cursor_order.rs, all lemmas proved), seek and search leave a root-to-leaf path, advance() moves to exactly the next position '
                 '(num grows by one iff the old position held an entry) and answers false only when nothing lies after it, and next() yields the entry whose number is next_target (0 on a fresh cursor, '
                 'num after a seek, num+1 after a yielded entry) and None only when next_target >= size(root): every entry exactly once, in tree order, none skipped, also across leaves emptied inside the transaction.',
@@ -152,7 +152,7 @@ PROPS['C08'] = dict(
                'and WHERE seek lands relative to the key (PageNode::index, slot-before rule) is proved per node in unit pagenode but not composed over levels. Termination of the skip-emptied-leaves loop in Cursor::next is not proved. Byte-string order is an uninterpreted strict total order.',
     assumptions=[A_TOOLS, 'Cursor::{seek,current,next} by assumed contract over an abstract ascending key sequence', 'byte-string comparison is a strict total order (axiom_key_order); rule R10: `a < *b` on &[u8] compares the slices',
                  'the RangeBounds implementation agrees with its vstd specification (true for every std range type and (Bound, Bound))'],
-    not_covered=['that the position seek leaves is the slot-before of the key over ALL levels (per node: unit pagenode)', 'termination of the loop in Cursor::next that skips leaves emptied inside the transaction (partial correctness only; advance and seek_first terminate)', 'bucket-only / pair-only filters (R3: generic `for data in self.i.by_ref()` is outside what Verus accepts)'],
+    not_covered=['that the position seek leaves is the slot-before of the key over ALL levels (per node: unit pagenode)', 'termination of the loop in Cursor::next that skips leaves emptied inside the transaction (partial correctness only; advance and seek_first terminate)'],
 )
 
 A_TREEIF = 'the tree a cursor walks is an abstract interface (prelude/cursor_tree.rs): branch nodes are never empty, children are strictly lower (finite height), the shape does not change while the cursor walks'
